@@ -23,7 +23,7 @@ ROLES = {
     "class": ("none", "read", "assign", "aug", "walrus", "for", "def", "class", "import", "global-assign", "global-read",
               "nonlocal-assign", "nonlocal-read", "late-assign"),
     "lambda": ("none", "read", "param", "walrus", "param-default"),
-    "comp": ("none", "read", "target", "walrus", "iter-read"),
+    "comp": ("none", "read", "target", "walrus", "iter-read", "iter-target"),
 }
 
 
@@ -117,9 +117,12 @@ class Render:
         t = self.tag()
         items = []
         r = node.role
+        if r == "iter-read":
+            # what the first iterable (evaluated in the ENCLOSING scope) saw, then what the comprehension's own scope sees
+            items.append(f"print({sid}, 'i', show(_i{sid}))")
         if r in ("read", "iter-read"):
             items.append(f"print({sid}, 'r', show({x}))")
-        elif r in ("param", "target", "param-default"):
+        elif r in ("param", "target", "param-default", "iter-target"):
             items.append(f"print({sid}, 'a', show({x}))")
         elif r == "walrus":
             items.append(f"print({sid}, 'w', ({x} := {t}))")
@@ -139,6 +142,8 @@ class Render:
             return f"[{body} for {x} in [{t}]]"
         if r == "iter-read":
             return f"[{body} for _i{sid} in [{x}]]"
+        if r == "iter-target":
+            return f"[{body} for {x} in [{x}]]"      # the iterable reads the enclosing variable, the target is the comprehension's
         return f"[{body} for _i{sid} in [0]]"
 
 
